@@ -404,5 +404,8 @@ func UnpackKey(inKey string) (key []byte, err error) {
 	default:
 		return nil, fmt.Errorf("cannot decode key %s", inKey)
 	}
+	if len(key) != 16 {
+		return nil, fmt.Errorf("key %s is %d bytes instead of 16", shorten(inKey), len(key))
+	}
 	return key, nil
 }
